@@ -4,9 +4,10 @@
    `RCfg`); JanetModel/Thread/Current.lean instantiates the full theorems at the configuration regenerated from the current
    source (Gen/Thread.lean) - it only builds when the current source satisfies their hypotheses.
 
-   What is NOT proved here (tested only, see notes/C08.md): data races and memory errors (TSan / ASan), and the step from
-   hand-out order to resume order per receiver in `per_sender_order_partial` (FIFO pipes + one outstanding wait per fiber). -/
-import JanetModel.Thread.Lemmas
+   What is NOT proved here (tested only, see notes/C08.md): data races and memory errors (TSan / ASan).
+   Session 3: the model carries the run queues (`janet_vm.spawn`), the waiting state of fibers and an event log; the step from
+   hand-out order to resume order per receiving fiber is now proved (`per_sender_order`, executions without abandoned waits). -/
+import JanetModel.Thread.EndToEnd
 
 namespace JanetModel.Props.C08
 open JanetModel.Thread
@@ -28,7 +29,7 @@ theorem exactly_once_partial (cfg : Cfg) (limit : Nat) (acts : List Act)
 /-- the unchanged tree (`requeue = false`): reader 0 waits, abandons its wait, thread 1 gives item 7, loop 0 handles the
     message: the item is nowhere (not queued, not in flight, not delivered) although the give succeeded. -/
 theorem exactly_once_counterexample :
-    let s := run ⟨false, false, true, true, true⟩ [.take 0 0, .abandon 0, .give 1 1 7, .handle 0] (init 4)
+    let s := run ⟨false, false, true, true, true, true⟩ [.take 0 0, .abandon 0, .give 1 1 7, .handle 0] (init 4)
     s.sent = [7] ∧ s.items = [] ∧ s.flight = [] ∧ s.delivered = [] ∧ ¬ Conserved s := by
   refine ⟨by decide, by decide, by decide, by decide, ?_⟩
   intro h
@@ -36,30 +37,119 @@ theorem exactly_once_counterexample :
   revert this
   decide
 
-example : (run ⟨true, true, true, true, true⟩ [.take 0 0, .abandon 0, .give 1 1 7, .handle 0, .take 0 2] (init 4)).delivered = [(2, 7)] := by
+example : gotAll (run ⟨true, true, true, true, true, true⟩ [.take 0 0, .abandon 0, .give 1 1 7, .handle 0, .take 0 2, .resume 0, .resume 0] (init 4)).log = [(2, 7)] := by
   decide
 
 /-- ★ (partial) per-sender order: in every execution in which no read message is found stale, items leave the channel
     (taken directly, or dispatched to a pending reader) exactly in the order in which they were given: the hand-out log
     followed by the queue content IS the send log.  Hence two items of one sender are handed out in the order sent.
-    Missing for the full statement: (a) stale readers - false, see `per_sender_order_counterexample`, also on the
-    implementation (known finding reorder-stale-reader); (b) hand-out order = resume order per receiver (FIFO pipe of the
-    receiver's loop and one outstanding wait per fiber) - argued in notes/C08.md, tested by the topology oracle. -/
+    Missing for the full statement: stale readers - false, see `per_sender_order_counterexample`, also on the
+    implementation (known finding reorder-stale-reader).  The step from hand-out order to resume order per receiver is
+    `per_sender_order` below. -/
 theorem per_sender_order_partial (cfg : Cfg) (limit : Nat) (acts : List Act)
     (h : (run cfg acts (init limit)).staleReads = 0) :
     let s := run cfg acts (init limit)
     s.handed.map Prod.snd ++ s.items = s.sent :=
   (run_fifo cfg acts (init limit) h ⟨Or.inl rfl, rfl⟩).2
 
-/-- even with the put-back fix: item 1 is dispatched to a reader that abandoned its wait, item 2 is queued and taken by
-    fiber 5, item 1 comes back and is taken by fiber 5 afterwards: received 2 before 1 although sent 1 before 2. -/
-theorem per_sender_order_counterexample :
-    let s := run ⟨true, true, true, true, true⟩
-      [.take 0 0, .abandon 0, .give 1 1 1, .give 1 1 2, .take 0 5, .handle 0, .take 0 5] (init 4)
-    s.sent = [1, 2] ∧ s.delivered = [(5, 2), (5, 1)] := by
+/-- ★ per-sender order, end to end on the event log (from the `gave` events of one sender to the `got` events of one receiver):
+    in every execution in which no waiting fiber is abandoned (no ev/cancel, deadline or other select clause hits a fiber that
+    waits on the channel), for every configuration, capacity, number of loops and interleaving of gives, takes, closes, pipe
+    hand-offs and run-queue resumptions: the items that fiber `receiver` was resumed with, restricted to those that carry the
+    tag of `sender`, appear in the order in which `sender` gave them.  (`tag` = any labelling of items by their giving fiber,
+    as in the harness where every message carries its producer id.)
+    Proof: tickets invariant (a waiting fiber has exactly one claim on its next resumption - pending entry, pipe message or
+    queued task - carrying its current sched_id, so janet_thread_chan_cb and janet_loop1 never find it stale) + per fiber
+    `got ++ queued ++ in flight = handed` + hand-out order = send order (`Fifo`).
+    Not covered: executions with abandoned waits - genuinely false, `per_sender_order_counterexample` (known finding). -/
+theorem per_sender_order (cfg : Cfg) (limit : Nat) (acts : List Act)
+    (hclean : (run cfg acts (init limit)).abandons = 0)
+    (tag : Item → Nat) (htag : ∀ f x, Ev.gave f x ∈ (run cfg acts (init limit)).log → tag x = f)
+    (sender receiver : Nat) :
+    ((gotSeq receiver (run cfg acts (init limit)).log).filter (fun x => tag x == sender)).Sublist
+      (gaveBy sender (run cfg acts (init limit)).log) := by
+  have hc : Clean (run cfg acts (init limit)) := run_clean cfg acts (init limit) hclean (clean_init limit)
+  have h1 := (hc.got_sublist_sent receiver).filter (fun x => tag x == sender)
+  rw [← run_logOK cfg acts (init limit) rfl, gaveBy_eq_filter tag sender _ htag] at h1
+  exact h1
+
+/-- the same without tags: what any fiber got is, in order, a sub-sequence of the global (atomic) give order -/
+theorem got_in_send_order (cfg : Cfg) (limit : Nat) (acts : List Act) (hclean : (run cfg acts (init limit)).abandons = 0)
+    (receiver : Nat) :
+    (gotSeq receiver (run cfg acts (init limit)).log).Sublist (gaveSeq (run cfg acts (init limit)).log) := by
+  have hc : Clean (run cfg acts (init limit)) := run_clean cfg acts (init limit) hclean (clean_init limit)
+  rw [run_logOK cfg acts (init limit) rfl]
+  exact hc.got_sublist_sent receiver
+
+/-- without abandoned waits no message is ever found stale and the run loop skips no task -/
+theorem no_abandon_no_stale_no_drop (cfg : Cfg) (limit : Nat) (acts : List Act) (hclean : (run cfg acts (init limit)).abandons = 0) :
+    (run cfg acts (init limit)).staleReads = 0 ∧ (run cfg acts (init limit)).dropped = [] :=
+  ⟨(run_clean cfg acts (init limit) hclean (clean_init limit)).stale, run_nodrop cfg acts (init limit) hclean (clean_init limit)⟩
+
+-- non-vacuity: two senders (fibers 1, 2; items tagged x / 10), capacity 1 so that fiber 2 parks, receivers 5 (thread 0, first
+-- pending then direct) and 6 (thread 3); pipe hand-offs and run-queue resumptions interleaved; no abandoned wait
+example :
+    let s := run ⟨true, true, true, true, true, true⟩
+      [.take 0 5, .give 1 1 10, .give 1 1 11, .give 2 2 20, .handle 0, .take 3 6, .resume 0, .resume 0, .handle 0, .resume 0,
+       .give 2 2 21, .take 0 5, .resume 0, .take 0 5, .resume 0] (init 1)
+    s.abandons = 0 ∧ gotSeq 5 s.log = [10, 20, 21] ∧ gotSeq 6 s.log = [11] ∧ gaveBy 2 s.log = [20, 21] := by
   decide
 
-example : (run ⟨true, true, true, true, true⟩ [.take 0 0, .give 1 1 1, .give 1 1 2, .handle 0, .take 0 5] (init 4)).staleReads = 0 := by
+/-- even with the put-back fix: item 1 is dispatched to a reader that abandoned its wait, item 2 is queued and taken by
+    fiber 5, item 1 comes back and is taken by fiber 5 afterwards: fiber 5 is resumed with 2 before 1 although 1 was given
+    before 2 (event log). -/
+theorem per_sender_order_counterexample :
+    let s := run ⟨true, true, true, true, true, true⟩
+      [.take 0 0, .abandon 0, .give 1 1 1, .give 1 1 2, .take 0 5, .resume 0, .resume 0, .handle 0, .take 0 5, .resume 0] (init 4)
+    gaveBy 1 s.log = [1, 2] ∧ gotSeq 5 s.log = [2, 1] ∧ s.abandons = 1 := by
+  decide
+
+example : (run ⟨true, true, true, true, true, true⟩ [.take 0 0, .give 1 1 1, .give 1 1 2, .handle 0, .resume 0, .take 0 5] (init 4)).staleReads = 0 := by
+  decide
+
+/-- per receiving THREAD the order is not kept even without abandoned waits (two fibers of one thread take from one channel):
+    item 1 is posted to the pipe of thread 0 for the pending fiber 7, item 2 is queued and taken directly by fiber 8 of the
+    same thread before the thread looks at its pipe: thread 0 resumes fiber 8 with 2, then fiber 7 with 1.  Each FIBER still
+    sees send order (`per_sender_order`); a receiver is a fiber. -/
+theorem per_thread_order_counterexample :
+    let s := run ⟨true, true, true, true, true, true⟩ [.take 0 7, .give 1 1 1, .give 1 1 2, .take 0 8, .resume 0, .handle 0, .resume 0] (init 4)
+    s.abandons = 0 ∧ gotAll s.log = [(8, 2), (7, 1)] := by
+  decide
+
+/-! ### exactly once up to the resumption of the receiving fiber -/
+
+/-- ☆ end to end: with re-dispatch and put-back, under every interleaving every accepted item is in exactly one of: the
+    channel queue, a pipe message, a queued run-queue task, the `got` events of the log (delivered to exactly one fiber),
+    or the tasks that janet_loop1 skipped because the fiber had been rescheduled in the meantime (`dropped`). -/
+theorem exactly_once_resumed (cfg : Cfg) (hq : cfg.requeue = true) (hd : cfg.redispatch = true) (limit : Nat) (acts : List Act) (x : Item) :
+    let s := run cfg acts (init limit)
+    (gaveSeq s.log).countP (· == x) =
+      s.items.countP (· == x) + s.flight.countP (fun m => m.item == some x) + s.runq.countP (fun k => k.item == some x) +
+        (gotAll s.log).countP (fun d => d.2 == x) + s.dropped.countP (fun d => d.2 == x) := by
+  have h1 := exactly_once cfg hq hd limit acts x
+  have h2 := run_conserved2 cfg acts (init limit) (conserved2_init limit) x
+  have h3 := run_logOK cfg acts (init limit) rfl
+  simp only [h3]
+  omega
+
+/-- ... and `dropped` is empty unless a waiting fiber was abandoned: then exactly-once holds up to the `got` events -/
+theorem exactly_once_resumed_clean (cfg : Cfg) (hq : cfg.requeue = true) (hd : cfg.redispatch = true) (limit : Nat) (acts : List Act)
+    (hclean : (run cfg acts (init limit)).abandons = 0) (x : Item) :
+    let s := run cfg acts (init limit)
+    (gaveSeq s.log).countP (· == x) =
+      s.items.countP (· == x) + s.flight.countP (fun m => m.item == some x) + s.runq.countP (fun k => k.item == some x) +
+        (gotAll s.log).countP (fun d => d.2 == x) := by
+  have h := exactly_once_resumed cfg hq hd limit acts x
+  have hd0 := (no_abandon_no_stale_no_drop cfg limit acts hclean).2
+  simp only [hd0] at h
+  simpa using h
+
+/-- the run loop does drop a value when the fiber is rescheduled between janet_thread_chan_cb and its resumption (a deadline
+    that expires in the same loop turn; known finding lost-deadline-same-turn): fiber 0 waits, item 7 is given, the callback
+    schedules fiber 0 with it, the deadline cancels fiber 0, janet_loop1 skips the task that carries the item. -/
+theorem scheduled_then_abandoned_counterexample :
+    let s := run ⟨true, true, true, true, true, true⟩ [.take 0 0, .give 1 1 7, .handle 0, .abandon 0, .resume 0, .resume 0] (init 4)
+    gaveSeq s.log = [7] ∧ gotAll s.log = [] ∧ s.items = [] ∧ s.flight = [] ∧ s.runq = [] ∧ s.dropped = [(0, 7)] := by
   decide
 
 /-! ### blocked writers: a wake-up forwarded past a writer that gave up reaches the next writer -/
@@ -84,9 +174,9 @@ theorem writer_wakeup_accepted (cfg : Cfg) (s : St) (w : Pending) (hcur : s.sche
     fiber 2's id, rejected there, forwarded off the end of the queue - fiber 3 is never resumed. -/
 theorem writer_wakeup_counterexample :
     let acts := [Act.give 0 1 10, .give 0 2 20, .abandon 3, .give 0 3 30, .abandon 2, .take 0 4, .handle 0, .handle 0]
-    (run ⟨true, true, true, true, false⟩ acts (init 1)).woken = [] ∧
-    (run ⟨true, true, true, true, false⟩ acts (init 1)).flight = [] ∧
-    (run ⟨true, true, true, true, true⟩ acts (init 1)).woken = [(3, Kind.write)] := by
+    (run ⟨true, true, true, true, false, true⟩ acts (init 1)).woken = [] ∧
+    (run ⟨true, true, true, true, false, true⟩ acts (init 1)).flight = [] ∧
+    (run ⟨true, true, true, true, true, true⟩ acts (init 1)).woken = [(3, Kind.write)] := by
   decide
 
 /-! ### ev/thread -/
